@@ -1139,9 +1139,10 @@ def _grids(solver, P, tier):
             out.append({'tau': tau, 'sigma': [sig] * m,
                         'tag': 'tau*sum(sigma|L|^2)<=%s,tau/sigma=%s' % (p, rho)})
     elif solver == ADMM:
-        for p, sig in [(0.9, 1.0), (0.5, 4.0), (0.99, 0.25)][:3 if thorough else 2]:
-            out.append({'tau': p * sig / nrm ** 2, 'sigma': sig,
-                        'tag': 'tau|L|^2/sigma=%s,sigma=%s' % (p, sig)})
+        # same parametrisation as pdhg (1/sigma plays the role of the dual step)
+        for p, rho in [(0.9, 1.0), (0.5, 4.0), (0.99, 0.25)][:3 if thorough else 2]:
+            out.append({'tau': np.sqrt(p * rho) / nrm, 'sigma': nrm / np.sqrt(p / rho),
+                        'tag': 'tau|L|^2/sigma=%s,tau*sigma=%s' % (p, rho)})
     elif solver == PG:
         for c, lam in [(1.0, 1.0), (1.9, 1.0), (0.5, 1.0), (1.0, 0.5)][:4 if thorough else 2]:
             out.append({'gamma': c / P.lip_h, 'lam': lam, 'tag': 'gamma*Lip=%s,lam=%s' % (c, lam)})
@@ -1314,8 +1315,10 @@ def run_ns(cfg):
                     '%s x0=%s niter=5: %d callbacks, x after the call %s, last callback iterate '
                     '%s' % (info, x0.tolist(), len(rec.it), S.to_flat(x).tolist(),
                             rec.it[-1].tolist() if rec.it else None)))
-            if not live or ('live', site) in first:
+            if not live or ('live', site) in first or st['tag'] in ('tau-only', 'sigma-only'):
                 continue
+            if cfg['pat'] == 'z' and not fam.get('zero_dual_only'):
+                continue      # the zero-dual variants exist for the fixed-point clause
             # ---- (ii) bounded liveness (+ diagnostics), from every start
             for which in (['zero', 'pattern'] if (tier == 'thorough' and cfg['pat'] == 0)
                           else ['zero']):
@@ -1496,14 +1499,16 @@ def configs(tier):
             n = S.flat_size(_xspace(X))
             pts = list(itertools.product(F['xv'], repeat=n))
             if not thorough:
-                # quick: the 9 palindromic patterns (all 27 / 81 in the thorough tier)
+                # quick: the palindromic patterns (3 for n=2, 9 for n=3,4)
                 pts = [t for t in pts if t == t[::-1]]
+            elif n == 4 and fam != 'rof1d':
+                pts = [t for t in pts if t[3] == t[0]]       # 27 of 81 (all 81 for rof1d)
             if F.get('zero_dual_only'):
                 pats = [('z', 0)]
             elif thorough:
                 pats = [(0, 0), (1, 0), ('z', 0), (0, 1)]
             else:
-                pats = [(0, 0), ('z', 0)]
+                pats = [(0, 0), ('z', 0), (1, 0), (0, 1)]
             for pat, deg in pats:
                 for xs in pts:
                     for sv in F['solvers']:
